@@ -132,8 +132,9 @@ class Laser(object):
         if extent is not None:
             x0, x1, y0, y1 = extent
             px, py = self.config.get_pixel_width(), self.config.get_pixel_height()
-            x0, x1 = int(x0 / px), int(x1 / px)
-            y0, y1 = int(y0 / py), int(y1 / py)
+            # round off floating point error before truncation
+            x0, x1 = int(round(x0 / px, 6)), int(round(x1 / px, 6))
+            y0, y1 = int(round(y0 / py, 6)), int(round(y1 / py, 6))
             data = data[y0:y1, x0:x1]
 
         if calibrate:
